@@ -906,7 +906,7 @@ class AxiLiteCdcInst:
                                   ifw=layout_fields(sink, layouts[ch]), ofw=layout_fields(source, layouts[ch])))
         for c in self.chan:
             c["tokw"] = sum(w for _, w in c["ifw"])
-        self.lean_open = "afifo_multi " + " ".join(str(c["k"]) for c in self.chan)
+        self.lean_open = "axilite %d" % K       # the product model of LitexModel/Cdc/AxiLite.lean
         self.qual = []
         for j in range(5):
             self.qual += [None, None, 3 * j + 1]
@@ -929,12 +929,9 @@ class AxiLiteCdcInst:
         return Tick((cds, masks))
 
     def model_letter(self, letter):
-        out = []
-        for j, c in enumerate(self.chan):
-            tw, tr = self._ticks(letter, c)
-            mw, mr, v, d, r = letter[2 + 5 * j: 7 + 5 * j]
-            out += [tw, tr, mw, mr, v, d, r]
-        return out
+        # the model gets the two clocks as they are: which of them writes/reads each channel is the model's
+        # statement (AxChan.fwd), checked here against the code
+        return list(letter)
 
     def apply(self, letter):
         n = self.netlist
@@ -1196,3 +1193,195 @@ def run_jobs_safe(ctx, jobs, timeout_s):
         bad.append(i)
         ctx.cov.notes.append("job %d: %s" % (i, why))
     return dis, bad
+
+
+# ---------------------------------------------------------------------------------------------------------------
+# The FIFO behind _FIFOWrapper with the endpoint token field by field (payload / param / first / last)
+
+class AFifoTokInst(AFifoInst):
+    """As AFifoInst, but model and code are compared per endpoint field: the model (`afifo_tok`) packs payload,
+       param, first, last into the fifo word and unpacks them again, as `_FIFOWrapper` does.  The harness drives
+       and observes payload fields and param fields separately (widths from the layouts given to the constructor).
+       outputs: [sink.ready, source.valid, source.payload, source.param, source.first, source.last]"""
+
+    def __init__(self, name, module, k, payload_layout, param_layout, **kw):
+        AFifoInst.__init__(self, name, module, k, layout=payload_layout, param_layout=param_layout, **kw)
+        self.wp = sum(w for _, w in payload_layout)
+        self.wq = sum(w for _, w in param_layout)
+        self.lean_open = "afifo_tok %d %d %d %d" % (k, 1 if self.buffered else 0, self.wp, self.wq)
+        self.qual = [None, None, 1, 1, 1, 1]
+        npl, npm = len(payload_layout), len(param_layout)
+        of = self.ports["out_fields"]
+        self._of = (of[:npl], of[npl:npl + npm], of[npl + npm], of[npl + npm + 1])
+
+    def _split(self, d):
+        pl = d & ((1 << self.wp) - 1)
+        pm = (d >> self.wp) & ((1 << self.wq) - 1)
+        return pl, pm, (d >> (self.wp + self.wq)) & 1, (d >> (self.wp + self.wq + 1)) & 1
+
+    def model_letter(self, letter):
+        tw, tr, mw, mr, v, d, r = letter[:7]
+        return [tw, tr, mw, mr, v] + list(self._split(d)) + [r]
+
+    def sample(self):
+        n = self.netlist
+        P = self.ports
+        pl, pm, f, l = self._of
+        return [n.getu(P["in_ready"]), n.getu(P["out_valid"]), pack_fw(n, pl), pack_fw(n, pm),
+                n.getu(f[0]), n.getu(l[0])]
+
+    def monitor(self):
+        inner = AFifoInst.monitor(self)
+        inst = self
+
+        class _M:
+            def observe(self, letter, outs):
+                tok = outs[2] | (outs[3] << inst.wp) | (outs[4] << (inst.wp + inst.wq)) | \
+                    (outs[5] << (inst.wp + inst.wq + 1))
+                return inner.observe(letter, [outs[0], outs[1], tok])
+        return _M()
+
+
+# ---------------------------------------------------------------------------------------------------------------
+# stream.Monitor in a foreign clock domain: reset/latch strobes through PulseSynchronizers, count back by MultiReg
+
+class MonitorInst:
+    """stream.Monitor(endpoint, count_width=w, clock_domain="phy", with_tokens=True).
+       letter : (ts, tc, reset_ps flop catches new, latch_ps flop catches new, status first-flop mask,
+                 reset strobe, latch strobe, endpoint.valid & endpoint.ready)          outputs: [_tokens.status]"""
+    FMT = "t_sys, t_phy, mask reset_ps, mask latch_ps, mask status flop, reset, latch, enable"
+
+    def __init__(self, name, w):
+        from litex.soc.interconnect import stream
+        from migen.genlib.cdc import PulseSynchronizer
+        self.name, self.w = name, w
+        self.ep = stream.Endpoint([("data", 8)])
+        self.module = m = stream.Monitor(self.ep, count_width=w, clock_domain="phy", with_tokens=True)
+        pss = [sub for _, sub in m._submodules if isinstance(sub, PulseSynchronizer)]
+        cnt = getattr(m, "token_counter", None)
+        self.sp_cnt = (own_multiregs(cnt) or [None])[0] if cnt is not None else None
+        ps_sp = [((own_multiregs(p) or [None])[0], p) for p in pss]
+        self.netlist = n = CdcNetlist(m, clocks=("sys", "phy"))
+        self.sp_rst = self.sp_lat = None
+        for sig, attr in ((m.reset, "sp_rst"), (m.latch, "sp_lat")):   # which synchroniser carries which strobe
+            n.set(sig, 1)
+            n.settle()
+            hit = [sp for sp, p in ps_sp if n.getu(p.i) == 1]
+            n.set(sig, 0)
+            n.settle()
+            if len(hit) == 1:
+                setattr(self, attr, hit[0])
+        named = [sp for sp in (self.sp_rst, self.sp_lat, self.sp_cnt) if sp is not None]
+        self.mask_order = [id(sp) for sp in named]
+        self.extra = [sid for sid in n.mr if sid not in self.mask_order]
+        self.mask_order += self.extra
+        self.lean_open = "monitor %d" % w
+        self.qual = [None]
+        self.alphabet = None
+
+    def _maskdict(self, m1, m2, mc):
+        d = {sid: mc for sid in self.extra}
+        for sp, mk in ((self.sp_rst, m1), (self.sp_lat, m2), (self.sp_cnt, mc)):
+            if sp is not None:
+                d[id(sp)] = mk
+        return d
+
+    def pst_init(self):
+        return 0
+
+    def pst_next(self, pst, letter, outs):
+        return 0
+
+    def base_letters(self, pst):
+        L = [(0, 1, 0, 0, en) for en in (0, 1)]
+        L += [(1, 0, rs, la, 0) for rs in (0, 1) for la in (0, 1)]
+        L += [(1, 1, rs, la, en) for rs in (0, 1) for la in (0, 1) for en in (0, 1)]
+        return L
+
+    def cds_of(self, base):
+        return tuple(cd for cd, t in (("sys", base[0]), ("phy", base[1])) if t)
+
+    def make_letter(self, base, masks):
+        ts, tc, rs, la, en = base
+        g = lambda sp: masks.get(id(sp), 0) if sp is not None else 0
+        mc = g(self.sp_cnt)
+        for sid in self.extra:
+            mc |= masks.get(sid, 0)
+        return (ts, tc, g(self.sp_rst) & 1, g(self.sp_lat) & 1, mc, rs, la, en)
+
+    def clocks(self, letter):
+        return Tick((self.cds_of(letter[:2]), self._maskdict(letter[2], letter[3], letter[4])))
+
+    def apply(self, letter):
+        n = self.netlist
+        n.set(self.module.reset, letter[5])
+        n.set(self.module.latch, letter[6])
+        n.set(self.ep.valid, letter[7])
+        n.set(self.ep.ready, 1)
+        n.settle()
+
+    def sample(self):
+        return [self.netlist.getu(self.module._tokens.status)]
+
+    def nontrivial(self, letter, outs):
+        return bool((letter[0] and (letter[5] or letter[6])) or (letter[1] and letter[7]))
+
+    # mode B: bursts of counted tokens, then a quiet window with one strobe (latch, sometimes reset) that is long
+    # enough for the strobe to cross and the count to come back
+    def gen(self, rng, t):
+        if t == 0:
+            self._plan = []
+        if not self._plan:
+            burst = [("count", None)] * rng.randint(3, 40)
+            strobe = "reset" if rng.random() < 0.2 else "latch"
+            self._plan = burst + [("quiet", None)] * 2 + [("strobe", strobe)] + [("quiet", None)] * 40
+        kind, arg = self._plan[0]
+        ts, tc = rng.choice(((1, 0), (0, 1), (1, 1)))
+        rs = la = en = 0
+        if kind == "count":
+            en = 1 if rng.random() < 0.7 else 0
+            self._plan.pop(0)
+        elif kind == "strobe":
+            if ts:
+                rs, la = (1, 0) if arg == "reset" else (0, 1)
+                self._plan.pop(0)
+        else:
+            self._plan.pop(0)
+        full = (1 << self.w) - 1
+        return (ts, tc, rng.randint(0, 1), rng.randint(0, 1), rng.choice((0, full, rng.randint(0, full))), rs, la, en)
+
+    def monitor(self):
+        return MonitorOracle(self.w)
+
+
+class MonitorOracle:
+    """Independent oracle for the partial property: a strobe issued while the endpoint is idle, followed by four
+    edges of the monitored clock and then three sys edges without any further activity, has taken effect exactly
+    once — after a latch the status equals the number of tokens counted (saturating at 2^w - 1), after a reset a
+    following latch reads zero-based counts."""
+    def __init__(self, w):
+        self.top = (1 << w) - 1
+        self.count = 0
+        self.win = None         # {"kind", "tc", "ts"}
+
+    def observe(self, letter, outs):
+        ts, tc, m1, m2, mc, rs, la, en = letter
+        msg = None
+        if self.win is not None and self.win["tc"] >= 4 and self.win["ts"] >= 3:
+            if self.win["kind"] == "latch" and outs[0] != self.count:
+                msg = "latched status %d, but %d tokens were counted (strobe lost, duplicated or count torn)" % (
+                    outs[0], self.count)
+            self.win = None
+        if tc and en:
+            self.count = min(self.count + 1, self.top)
+            self.win = None     # activity: no expectation
+        if ts and (rs or la):
+            self.win = {"kind": "reset" if rs else "latch", "tc": 0, "ts": 0} if not (rs and la) and not en else None
+            if rs:
+                self.count = 0
+        elif self.win is not None:
+            if self.win["tc"] >= 4:
+                self.win["ts"] += 1 if ts else 0
+            elif tc:
+                self.win["tc"] += 1
+        return msg
